@@ -37,8 +37,56 @@ def blocks(fi):
     return out
 
 
+def current_view_rule(m, run, fi):
+    """GA1: a local holding a view of the object's control points (obj.ctrlpts / obj.ctrlptsw / obj.ctrlpts2d ...) is not used after the
+    object's net has been replaced by set_ctrlpts: on no path does a use of the local follow a set_ctrlpts call without a
+    re-definition in between (the second direction of a multi-direction operation must start from the net the first one produced)"""
+    from .cfg import CFG
+    cfg = CFG(fi.node)
+    obj = params_of(fi.node)[0]
+    defs = {}
+    for n in walk_no_nested(fi.node):
+        if isinstance(n, ast.Assign) and len(n.targets) == 1 and isinstance(n.targets[0], ast.Name):
+            if any(isinstance(x, ast.Attribute) and isinstance(x.value, ast.Name) and x.value.id == obj and x.attr.startswith('ctrlpts') and 'size' not in x.attr
+                   for x in ast.walk(n.value)) and not any(isinstance(x, ast.Call) for x in ast.walk(n.value)):
+                defs.setdefault(n.targets[0].id, []).append(n)
+    setters = [cfg.node_of(c) for c in walk_no_nested(fi.node) if isinstance(c, ast.Call) and isinstance(c.func, ast.Attribute)
+               and c.func.attr == 'set_ctrlpts' and norm(c.func.value) == obj]
+    setters = [x for x in setters if x is not None]
+    n_rule = 0
+    for name, ds in sorted(defs.items()):
+        all_defs = [cfg.of[d] for d in walk_no_nested(fi.node) if isinstance(d, ast.Assign) and any(isinstance(t, ast.Name) and t.id == name for t in d.targets) and d in cfg.of]
+        uses = [u for u in walk_no_nested(fi.node) if isinstance(u, ast.Name) and u.id == name and isinstance(u.ctx, ast.Load)]
+        stale = None
+        for d in ds:
+            dn = cfg.of.get(d)
+            if dn is None:
+                continue
+            after_def = set()
+            for sc_, lab in dn.succ:
+                after_def |= cfg.reach_from(sc_, skip_nodes=[x for x in all_defs if x is not dn])
+            for sn in setters:
+                if sn not in after_def:
+                    continue
+                after_set = set()
+                for sc_, lab in sn.succ:
+                    after_set |= cfg.reach_from(sc_, skip_nodes=all_defs)
+                for u in uses:
+                    un = cfg.node_of(u)
+                    if un in after_set and un is not sn:
+                        stale = (d, sn, u)
+        n_rule += 1
+        run.ob('GA1.view-is-current', '%s :: %s' % (fi.key, name), stale is None,
+               '`%s` is re-read from the object after every set_ctrlpts that precedes a use' % name if stale is None else
+               '`%s` (defined at line %d from the object\'s control points) is still used at line %d after set_ctrlpts at line %d replaced the net: '
+               'the later direction works on the net from before the earlier direction, with the new sizes'
+               % (name, stale[0].lineno, stale[2].lineno, stale[1].ast.lineno), site(fi, stale[2] if stale else ds[0]))
+    return n_rule
+
+
 def block_rules(m, run, fi, op):
     """op in {'insert', 'remove', 'refine'}"""
+    current_view_rule(m, run, fi)
     bl = blocks(fi)
     if len(bl) != 6:
         raise AnalysisError('%s: expected 6 per-direction blocks (curve, surface u/v, volume u/v/w), found %d' % (fi.key, len(bl)))
